@@ -46,6 +46,9 @@ def r1(ctx):
         recvs = [c for c in b.find_calls(S.RECV) if 'track::store::Results' in b.locals[c.dest['l']]]
         if not recvs:
             continue
+        if F.seen_inlined(b.npath):
+            # a helper introduced by a refactoring: judged inlined in its callers (with the arguments they pass)
+            continue
         ctx.read(b)
         eb = ExprBuilder(b)
         for c in recvs:
@@ -113,7 +116,15 @@ def r2(ctx):
             if s['k'] == 'assign' and rv['k'] == 'agg' and rv['ak'] == 'adt' and norm(rv['adt']) == \
                     'track::store::Results' and rv['v'] == 'MergeResult':
                 e = eb.operand(rv['ops'][0])
-                alts = e.args if e.kind == 'phi' else [e]
+                alts = []
+
+                def flat(x):
+                    if x.kind == 'phi':
+                        for y in x.args:
+                            flat(y)
+                    else:
+                        alts.append(x)
+                flat(e)
                 n += 1
                 fab = [a for a in alts if a.kind == 'agg' and a.name.endswith('Result::Ok')]
                 merges = [a for a in alts if a.kind == 'call' and a.name.endswith('Track::merge')]
@@ -135,15 +146,17 @@ def r2(ctx):
     ctx.floor(R, n, 1)
     # same-track guard: Track::merge only on dest_id != src.track_id side and destination found
     for c in w.find_calls('track::Track::merge'):
-        conds = path_conditions(w, c.bb)
-        ne = False
-        some = False
-        for k in conds:
-            cm = k.cmp()
-            if cm and cm[0] == 'Ne':
-                ne = True
-            if k.kind == 'discr' and k.variants == {'Some'}:
-                some = True
+        from lib import expand_conditions
+        ne = some = True
+        for conds in expand_conditions(w, path_conditions(w, c.bb)):
+            ne1 = some1 = False
+            for k in conds:
+                cm = k.cmp()
+                if cm and cm[0] == 'Ne':
+                    ne1 = True
+                if k.kind == 'discr' and k.variants == {'Some'}:
+                    some1 = True
+            ne, some = ne and ne1, some and some1
         ctx.check(ne and some, R, w, 'merge-guards', 'destination present and dest_id != src.track_id',
                   'Track::merge is reachable in the worker without the destination-present / different-track guards',
                   c.ln)
@@ -233,8 +246,10 @@ def r4(ctx):
         # removed value reaches the result: pushed to the returned vector, or returned by a filter_map/flat_map closure
         ok = False
         if owner is b:
-            for p in b.find_calls('std::vec::Vec::push'):
-                v = eb.operand(p.args[1])
+            for p in b.find_calls('std::vec::Vec::push', 'std::iter::Extend::extend', 'std::vec::Vec::extend',
+                                  'std::vec::Vec::insert'):
+                # (`vec.extend(option)` appends the value when there is one)
+                v = eb.operand(p.args[-1])
                 if any(y.kind == 'call' and y.extra is c for y in v.walk()):
                     ok = True
         else:
